@@ -753,6 +753,32 @@ func TestPropScan(t *testing.T) {
 		Quick: 80, Thorough: 360, Assumptions: runAssumptions()})
 }
 
+// genMany: scans split into more range requests than any internal queue is likely to hold
+// ("for any batch size": BatchSize 1 over a log of 1001-1300 entries gives more than 1000
+// ranges; the scanner's range queue is a channel with 1000 slots).
+func genMany(t *rapid.T) Case {
+	var c Case
+	n := rapid.IntRange(1001, 1300).Draw(t, "n")
+	c.Entries = genEntries(t, n)
+	genOptions(t, &c, n)
+	c.Start, c.Max, c.ServerMax = 0, 0, 0
+	c.Batch = 1
+	c.Fetchers = rapid.IntRange(2, 6).Draw(t, "fetchers")
+	np := rapid.IntRange(0, 12).Draw(t, "planlen")
+	c.Plan = make([]Step, np)
+	for i := range c.Plan {
+		c.Plan[i] = genStep(t)
+		c.Plan[i].DelayUs = 0
+	}
+	return c
+}
+
+func TestPropManyRanges(t *testing.T) {
+	kit.Run(t, kit.Spec[Case]{ID: "C17", Name: "many-ranges",
+		Rule: "as scan, with a log of 1001-1300 entries scanned with BatchSize 1 (more than 1000 range requests), 2-6 fetchers and a short fault plan. Same oracle (in particular: Scan terminates) and non-trivial rule",
+		Gen:  genMany, Check: checkNamed("many-ranges"), Quick: 1, Thorough: 4, Assumptions: runAssumptions()})
+}
+
 func TestPropSlow(t *testing.T) {
 	kit.Run(t, kit.Spec[Case]{ID: "C17", Name: "slow",
 		Rule: "as scan, but the range covering one generated index is answered with HTTP 500 three times (the scanner sleeps 500 ms per 500), so the scan outlives the 1 s progress ticker while the other ranges are being processed: exercises the ticker goroutine's reads of the shared counter under the race detector, and the 500 retry path. Same oracle and non-trivial rule",
